@@ -300,25 +300,40 @@ class FlowDomain(Domain):
         return r
 
     def _argtags(self, ip, fr, term):
+        """Tags are typed: integer arguments carry offset/constant tags, buffer
+        and table arguments carry buffer/table tags (no cross-talk)."""
         out = []
         for a in term['args']:
             tag = None
-            ty = None
-            if a['k'] in ('copy', 'move'):
-                lt = fr.body.ty(a['pl']['l']) if not a['pl']['p'] else None
-            b = self.cl.classify(ip, fr, a, 'buf')
-            if b and not b.startswith('C:'):
-                tag = b
-            if tag is None:
+            is_int = False
+            if a['k'] == 'const':
+                is_int = True
+            elif a['k'] in ('copy', 'move'):
+                ty = self._operand_ty(fr.body, a)
+                is_int = ty is not None and ty.get('k') == 'prim'
+            if is_int:
                 o = self.cl.classify(ip, fr, a, 'off')
                 if o:
                     tag = o
-            if tag is None:
-                t = self.cl.classify(ip, fr, a, 'tbl')
-                if t:
-                    tag = t
+            else:
+                b = self.cl.classify(ip, fr, a, 'buf')
+                if b and not b.startswith('C:') and not b.startswith('OFF:'):
+                    tag = b
+                if tag is None:
+                    t = self.cl.classify(ip, fr, a, 'tbl')
+                    if t:
+                        tag = t
             out.append(tag)
         return tuple(out)
+
+    def _operand_ty(self, body, a):
+        pl = a['pl']
+        fs = [e for e in pl['p'] if e['k'] == 'field']
+        if fs and fs[-1] is pl['p'][-1]:
+            return self.f.types[fs[-1]['t']]
+        if pl['p']:
+            return None
+        return body.ty(pl['l'])
 
     # ---------------------------------------------------------------- frames
     def on_leave(self, ip, fr, tok_before, tok_exit, exit_tag, cb, bi, term):
@@ -374,6 +389,10 @@ class FlowDomain(Domain):
     SINGLE = {'meta::header::Qcow2Header': 'header', 'meta::l1::L1Table': 'l1table',
               'meta::refcount::RefTable': 'reftable'}
 
+    def on_effect(self, ip, fr, bi, tok, kind, detail):
+        """Extension point for derived domains: a modifying effect happens here."""
+        return
+
     def check_needflag(self, ip, fr, bi, tok, what):
         nf = sorted(x[1] for x in tok if x[0] == 'NEEDFLAG')
         for fn in nf:
@@ -422,6 +441,7 @@ class FlowDomain(Domain):
             cls = self.zero_class(fr.argtags[1] if len(fr.argtags) > 1 else None)
             self._site('fallocate', fr, bi, cls)
             self.classes_seen.add(cls)
+            self.on_effect(ip, fr, bi, tok, 'Z', cls)
             if cls == 'Z?':
                 self.undecided.append('%s: zero/punch request of unknown class (%s)' % (fr.where(bi), fr.chain_str()))
             tok = tok | {('U', cls, origin)}
@@ -434,6 +454,7 @@ class FlowDomain(Domain):
             cls = self.write_class(fr)
             self._site('write', fr, bi, cls)
             self.classes_seen.add(cls)
+            self.on_effect(ip, fr, bi, tok, 'W', cls)
             self.check_write(ip, fr, bi, tok, cls, origin)
             ntok = set(tok)
             ntok.add(('U', cls, origin))
@@ -721,6 +742,7 @@ class FlowDomain(Domain):
                     # a table still private to this task: published (and flushed) by the header switch
                     return [(tok, None)]
                 self._site('topdirty', fr, bi, c)
+                self.on_effect(ip, fr, bi, tok, 'DIRTY', c)
                 return [(tok | {('RAM', c), ('NEEDFLAG', short(fr.body.path))}, None)]
             return [(tok, None)]
         if callee.endswith('::get_dirty_entries') and 'AsyncLruCache' in callee:
@@ -760,11 +782,13 @@ class FlowDomain(Domain):
             if tg == 'LOCALTBL':
                 return [(tok, None)]
             ntok = tok | {('RAM', 'RC'), ('MUT', 'RB')}
+            self.on_effect(ip, fr, bi, tok, 'REFCOUNT', short(callee))
             if callee.endswith('decrement'):
                 self.check_free(ip, fr, bi, tok)
             return [(ntok, 'ok()'), (tok, 'err')]
         if callee.endswith('L2Table::map_cluster'):
             self._site('map', fr, bi)
+            self.on_effect(ip, fr, bi, tok, 'MAP', 'L2')
             # replacing an allocation is an implicit unreference of the old clusters
             return [(tok | {('RAM', 'L2'), ('MUT', 'L2'), ('UNREF', 'L2', 'RAM')}, 'some()'),
                     (tok | {('RAM', 'L2'), ('MUT', 'L2')}, 'none')]
@@ -775,6 +799,7 @@ class FlowDomain(Domain):
                 return [(tok, None)]
             if c == 'L2':
                 self._site('unmap', fr, bi)
+                self.on_effect(ip, fr, bi, tok, 'MAP', 'L2')
                 return [(tok | {('RAM', 'L2'), ('MUT', 'L2'), ('UNREF', 'L2', 'RAM')}, None)]
             return None
         if callee.endswith('Qcow2Header::set_reftable') or callee.endswith('Qcow2Header::set_l1_table'):
@@ -938,6 +963,7 @@ class FlowDomain(Domain):
             kind = {'RB': 'RB', 'L2': 'L2'}.get(cls)
             self._site('dirtyflag', fr, bi, '%s %s' % (cls, val))
             if val == 'T':
+                self.on_effect(ip, fr, bi, tok, 'DIRTY', cls)
                 out = frozenset(x for x in tok if not (x[0] == 'MUT' and x[1] == kind)
                                 and not (x[0] == 'F' and len(x) > 2 and x[1] in ('CLEANED', 'CLEANPENDING') and x[2] == cls))
                 ram = 'RC' if cls == 'RB' else 'L2'
